@@ -593,8 +593,41 @@ class Engine:
         raise OutOfSubset('unary %s on %r' % (type(e.op).__name__, v.ty))
 
     def ev_BoolOp(self, e, st):
-        vals = [self.ev(x, st) for x in e.values]     # operands here are side-effect free in the subset
-        ts = [self.truth(v) for v in vals]
+        # short-circuit evaluation: operand k is evaluated under "all earlier operands true" (and) / "all earlier operands false" (or), with the locals
+        # narrowed accordingly (`p and p[0] ...`).  The temporary path conditions are removed afterwards; facts learned while evaluating a later operand
+        # are kept as implications of those conditions; a later operand may allocate (`== dict()`) but not otherwise change the heap.
+        is_and = isinstance(e.op, ast.And)
+        vals, ts, conds = [], [], []
+        saved_env = dict(st.env)
+        try:
+            for idx, x in enumerate(e.values):
+                n_pc = len(st.pc)
+                before = dict(st.heap.arr)
+                v = self.ev(x, st)
+                self._cur_heap = st.heap
+                t = self.truth(v)
+                vals.append(v)
+                ts.append(t)
+                if idx > 0:
+                    if any(st.heap.arr.get(k) is not a for k, a in before.items()) or len(st.heap.arr) != len(before):
+                        pure_alloc = all(isinstance(c.func, ast.Name) and c.func.id in ('dict', 'list', 'tuple', 'len', 'isinstance', 'type', 'abs', 'float', 'int')
+                                         for c in ast.walk(x) if isinstance(c, ast.Call))
+                        if not pure_alloc:
+                            raise OutOfSubset('operand %d of a boolean operation changes the heap, line %d' % (idx, e.lineno))
+                    guard = z3.And(*[c for _, c in conds])
+                    for k in range(n_pc, len(st.pc)):
+                        st.pc[k] = z3.Implies(guard, st.pc[k])
+                if idx + 1 < len(e.values):
+                    c = t if is_and else z3.Not(t)
+                    st.pc.append(c)
+                    conds.append((len(st.pc) - 1, c))
+                    self.narrow_none(x, st, is_and)
+        finally:
+            for pos, _ in reversed(conds):
+                del st.pc[pos]
+            for k in list(st.env):
+                if k in saved_env:
+                    st.env[k] = saved_env[k]
         if all(v.ty.k == 'bool' for v in vals):
             return vbool(z3.And(*ts) if isinstance(e.op, ast.And) else z3.Or(*ts))
         if isinstance(e.op, ast.Or) and len(vals) == 2 and vals[0].ty.k == 'str' and vals[1].ty.k == 'str':
